@@ -2,6 +2,8 @@
 import ast
 
 from .. import cachecoh
+from ..algebra import Alg, Uninterpreted, atom, const
+from ..flow import Aliases, Taint, bindings, names, split_tuple_assign, strip_list
 from ..model import AnalysisError, attr_chain, call_name, stmts_in
 
 EXPLANATION = (
@@ -36,111 +38,297 @@ def run(ctx):
         ctx.ob("R16.4", "%s.%s" % (cname, name), (cname, name) in inv, "", 0, "reversal changes every fraction of the path: the cached lengths must be dropped")
 
 
+def field_effect(ctx, cname, depth=0):
+    """Final value of every self.<field> after <cname>.reverse(), as canonical forms over the initial values (atom '<field>0')."""
+    fn = ctx.fn("%s.reverse" % cname, "R16.1")
+    owner = ctx.m.owner("%s.reverse" % cname)
+    fields = set(ctx.m.cls(cname).self_fields())
+    for c in ctx.m.mro(cname):
+        fields |= set(ctx.m.classes[c].self_fields())
+    alg = Alg()
+    for f in fields:
+        alg.atom_map["self.%s" % f] = atom("%s0" % f)
+    run_reverse(ctx, fn, owner, alg, 0)
+    return {f: alg.atom_map.get("self.%s" % f) for f in fields}, fn, owner
+
+
+def run_reverse(ctx, fn, owner, alg, depth):
+    for st in fn.body:
+        if isinstance(st, ast.Expr) and isinstance(st.value, ast.Constant):
+            continue
+        if isinstance(st, ast.Expr) and isinstance(st.value, ast.Call):
+            c = st.value
+            ch = attr_chain(c.func)
+            base = None
+            if ch and len(ch) == 2 and ch[1] == "reverse" and ch[0] in ctx.m.classes and c.args and isinstance(c.args[0], ast.Name) and c.args[0].id == "self":
+                base = ch[0]
+            elif isinstance(c.func, ast.Attribute) and c.func.attr == "reverse" and isinstance(c.func.value, ast.Call) and call_name(c.func.value) == "super":
+                mro = ctx.m.mro(owner)
+                base = next((k for k in mro[1:] if "reverse" in ctx.m.classes[k].methods), None)
+            if base is not None and depth < 3:
+                run_reverse(ctx, ctx.m.classes[base].methods["reverse"], base, alg, depth + 1)
+                continue
+            raise AnalysisError("R16.1", "%s.reverse: call not interpreted: %s" % (owner, ast.unparse(st)[:60]))
+        if isinstance(st, (ast.Assign, ast.AugAssign)):
+            try:
+                if isinstance(st, ast.AugAssign) and isinstance(st.target, ast.Attribute):
+                    k = ".".join(attr_chain(st.target))
+                    cur, val = alg.ev(st.target), alg.ev(st.value)
+                    new = cur * val if isinstance(st.op, ast.Mult) else cur + val if isinstance(st.op, ast.Add) else cur - val if isinstance(st.op, ast.Sub) else None
+                    if new is None:
+                        raise Uninterpreted("operator")
+                    alg.atom_map[k] = new
+                    continue
+                if not alg.assign(st):
+                    raise Uninterpreted("assignment form")
+            except Uninterpreted as e:
+                raise AnalysisError("R16.1", "%s.reverse: %s not interpreted (%s)" % (owner, ast.unparse(st)[:60], e))
+            continue
+        if isinstance(st, ast.Return) and (st.value is None or (isinstance(st.value, ast.Name) and st.value.id == "self")):
+            return
+        if isinstance(st, ast.Pass):
+            continue
+        raise AnalysisError("R16.1", "%s.reverse: statement kind %s not interpreted" % (owner, type(st).__name__))
+
+
 def per_class(ctx):
-    base = ctx.fn("PathSegment.reverse", "R16.1")
-    src = [ast.unparse(s).replace(" ", "") for s in base.body if not (isinstance(s, ast.Expr) and isinstance(s.value, ast.Constant))]
-    ok = src in (["end=self.end", "self.end=self.start", "self.start=end"], ["start=self.start", "self.start=self.end", "self.end=start"],
-                 ["self.start,self.end=self.end,self.start"], ["self.end,self.start=self.start,self.end"])
-    ctx.ob("R16.1", "PathSegment.reverse", ok, "; ".join(src), base.lineno, "reversal exchanges start and end")
+    eff, base, _ = field_effect(ctx, "PathSegment")
+    ok = eff.get("start") == atom("end0") and eff.get("end") == atom("start0")
+    ctx.ob("R16.1", "PathSegment.reverse", ok, "start <- %s, end <- %s" % (eff.get("start"), eff.get("end")), base.lineno, "reversal exchanges start and end")
     from .c02 import point_fields
 
     for cname in SEGMENTS:
         fields = point_fields(ctx, cname)
         controls = sorted(f for f in fields if f.startswith("control"))
-        owner = ctx.m.owner("%s.reverse" % cname)
-        fn = ctx.fn("%s.reverse" % cname, "R16.1")
-        src = [ast.unparse(s).replace(" ", "") for s in fn.body if not (isinstance(s, ast.Expr) and isinstance(s.value, ast.Constant))]
-        calls_base = owner == "PathSegment" or "PathSegment.reverse(self)" in src or "super().reverse()" in src
-        ok = calls_base
-        detail = "defined in %s: %s" % (owner, "; ".join(src))
+        eff, fn, owner = field_effect(ctx, cname)
+        ok = eff.get("start") == atom("end0") and eff.get("end") == atom("start0")
+        detail = "defined in %s: " % owner + ", ".join("%s <- %s" % (f, eff[f]) for f in sorted(eff) if eff[f] is not None and eff[f] != atom("%s0" % f))
         if len(controls) == 2:
             c1, c2 = controls
-            body = "".join(src)
-            swap = ("self.%s=self.%s" % (c2, c1) in body and "=self.%s" % c2 in body) or "self.%s,self.%s=self.%s,self.%s" % (c1, c2, c2, c1) in body
-            # the temp idiom: c2 = self.control2; self.control2 = self.control1; self.control1 = c2
-            tmp_ok = False
-            for i, s in enumerate(src):
-                if s.endswith("=self.%s" % c2) and not s.startswith("self."):
-                    t = s.split("=")[0]
-                    tmp_ok = "self.%s=self.%s" % (c2, c1) in src and "self.%s=%s" % (c1, t) in src and src.index("self.%s=self.%s" % (c2, c1)) < src.index("self.%s=%s" % (c1, t))
-                if s.endswith("=self.%s" % c1) and not s.startswith("self."):
-                    t = s.split("=")[0]
-                    tmp_ok = tmp_ok or ("self.%s=self.%s" % (c1, c2) in src and "self.%s=%s" % (c2, t) in src and src.index("self.%s=self.%s" % (c1, c2)) < src.index("self.%s=%s" % (c2, t)))
-            ok = ok and owner == cname and (tmp_ok or "self.%s,self.%s=self.%s,self.%s" % (c1, c2, c2, c1) in body or "self.%s,self.%s=self.%s,self.%s" % (c2, c1, c1, c2) in body)
-        has_sweep = "sweep" in ctx.m.cls(cname).self_fields()
-        if has_sweep:
-            ok = ok and owner == cname and any(s in ("self.sweep=-self.sweep", "self.sweep*=-1") for s in src)
+            ok = ok and eff.get(c1) == atom("%s0" % c2) and eff.get(c2) == atom("%s0" % c1)
+        elif len(controls) == 1:
+            ok = ok and eff.get(controls[0]) == atom("%s0" % controls[0])
+        if "sweep" in eff:
+            ok = ok and eff.get("sweep") == -atom("sweep0")
+        for f in fields:
+            if f not in ("start", "end") and not f.startswith("control") and f in eff and eff[f] is not None:
+                ok = ok and eff[f] == atom("%s0" % f)
         ctx.ob("R16.1", "%s.reverse" % cname, ok, detail, fn.lineno,
                "reversal must exchange start/end (base), exchange ordered control points, and negate a signed extent")
 
 
 def order(ctx):
     fn = ctx.fn("Path.reverse", "R16.2")
-    loops = [s for s in fn.body if isinstance(s, ast.For)]
+    al = Aliases(fn)
+    loops = [x for x in fn.body if isinstance(x, ast.For)]
     ctx.need(len(loops) == 2, "R16.2", "Path.reverse: two loops expected")
     l1, l2 = loops
     sp_var = None
-    for s in fn.body:
-        if isinstance(s, ast.Assign) and "self.as_subpaths()" in ast.unparse(s.value):
-            sp_var = s.targets[0].id
+    for tg, v, n in bindings(fn):
+        if isinstance(tg, ast.Name) and any(isinstance(c, ast.Call) and attr_chain(c.func) == ["self", "as_subpaths"] for c in ast.walk(v)):
+            sp_var = tg.id
     ctx.need(sp_var is not None, "R16.2", "Path.reverse: subpath list not found")
-    ok1 = ast.unparse(l1.iter) == sp_var and [ast.unparse(s).replace(" ", "") for s in l1.body] == ["%s.reverse()" % l1.target.id]
+    it1 = strip_list(l1.iter)
+    ok1 = isinstance(it1, ast.Name) and it1.id == sp_var and isinstance(l1.target, ast.Name) and len(l1.body) == 1 and isinstance(l1.body[0], ast.Expr) \
+        and isinstance(l1.body[0].value, ast.Call) and attr_chain(l1.body[0].value.func) == [l1.target.id, "reverse"]
     ctx.ob("R16.2", "Path.reverse[each subpath reversed]", ok1, ast.unparse(l1)[:80], l1.lineno, "every subpath is reversed in place")
-    ok2 = ast.unparse(l2.iter).replace(" ", "") in ("reversed(%s)" % sp_var, "%s[::-1]" % sp_var) and [ast.unparse(s).replace(" ", "") for s in l2.body] == ["p+=%s" % l2.target.id]
-    ctx.ob("R16.2", "Path.reverse[subpaths in reverse order]", ok2, ast.unparse(l2)[:80], l2.lineno, "the subpaths are re-assembled last to first")
-    src = [ast.unparse(s).replace(" ", "") for s in fn.body]
-    ok = "prepoint=self._segments[0].start" in src and "self._segments[0].start=prepoint" in src and src.index("self._segments=p._segments") < src.index("self._segments[0].start=prepoint")
-    ctx.ob("R16.2", "Path.reverse[first start kept]", ok, "", fn.lineno, "the start of the first segment (a Move's origin) is carried over")
-    ctx.ob("R16.2", "Path.reverse[takes the rebuilt list]", "self._segments=p._segments" in src and src[-1] == "returnself", "", fn.lineno, "")
+    it2 = l2.iter
+    rev = (isinstance(it2, ast.Call) and call_name(it2) == "reversed" and len(it2.args) == 1 and isinstance(strip_list(it2.args[0]), ast.Name) and strip_list(it2.args[0]).id == sp_var) \
+        or (isinstance(it2, ast.Subscript) and isinstance(it2.value, ast.Name) and it2.value.id == sp_var and isinstance(it2.slice, ast.Slice) and it2.slice.lower is None and it2.slice.upper is None
+            and isinstance(it2.slice.step, ast.UnaryOp) and isinstance(it2.slice.step.op, ast.USub) and isinstance(it2.slice.step.operand, ast.Constant) and it2.slice.step.operand.value == 1)
+    acc = None
+    okb = False
+    if isinstance(l2.target, ast.Name) and len(l2.body) == 1:
+        st = l2.body[0]
+        if isinstance(st, ast.AugAssign) and isinstance(st.op, ast.Add) and isinstance(st.target, ast.Name) and isinstance(st.value, ast.Name) and st.value.id == l2.target.id:
+            acc, okb = st.target.id, True
+        elif isinstance(st, ast.Expr) and isinstance(st.value, ast.Call) and isinstance(st.value.func, ast.Attribute) and st.value.func.attr == "extend" \
+                and isinstance(st.value.func.value, ast.Name) and l2.target.id in names(st.value):
+            acc, okb = st.value.func.value.id, True
+    fresh_acc = any(isinstance(tg, ast.Name) and tg.id == acc and isinstance(v, ast.Call) and call_name(v) == "Path" and not v.args for tg, v, n in bindings(fn))
+    ctx.ob("R16.2", "Path.reverse[subpaths in reverse order]", bool(rev) and okb and fresh_acc, ast.unparse(l2)[:80], l2.lineno, "the subpaths are re-assembled last to first")
+    # the origin of the first segment is saved before the rebuild and stored into the new first segment after it
+    first_start = "self._segments[0].start"
+    saved = [tg.id for tg, v, n in bindings(fn) if isinstance(tg, ast.Name) and al.canon(v) == first_start]
+    rebinds = [x for x in fn.body if isinstance(x, ast.Assign) and attr_chain(x.targets[0]) == ["self", "_segments"]]
+    restores = [x for x in fn.body if isinstance(x, ast.Assign) and ast.unparse(x.targets[0]).replace(" ", "") == first_start and isinstance(x.value, ast.Name) and x.value.id in saved]
+    ok = bool(saved) and len(rebinds) == 1 and bool(restores) and all(r.lineno > rebinds[0].lineno for r in restores)
+    ctx.ob("R16.2", "Path.reverse[first start kept]", ok, "saved in %s" % saved, fn.lineno, "the start of the first segment (a Move's origin) is carried over")
+    takes = len(rebinds) == 1 and acc is not None and attr_chain(rebinds[0].value) == [acc, "_segments"]
+    last = fn.body[-1]
+    ctx.ob("R16.2", "Path.reverse[takes the rebuilt list]", takes and isinstance(last, ast.Return) and isinstance(last.value, ast.Name) and last.value.id == "self", "", fn.lineno,
+           "the path adopts the re-assembled segment list")
     asub = ctx.fn("Path.as_subpaths", "R16.2")
-    s = ast.unparse(asub)
-    ok = "isinstance(seg, Move)" in s and "isinstance(seg, Close)" in s and "Subpath(self, start, current - 1)" in s and "Subpath(self, start, current)" in s and "start = current + 1" in s \
-        and "Subpath(self, start, len(self) - 1)" in s
+    sub_calls = [c for c in ast.walk(asub) if isinstance(c, ast.Call) and call_name(c) == "Subpath"]
+    lp = [x for x in asub.body if isinstance(x, ast.For)]
+    ok = False
+    if len(lp) == 1 and isinstance(lp[0].target, ast.Tuple) and len(lp[0].target.elts) == 2 and call_name(lp[0].iter) == "enumerate":
+        cur, seg = lp[0].target.elts[0].id, lp[0].target.elts[1].id
+        starts = [tg.id for tg, v, n in bindings(asub) if isinstance(tg, ast.Name) and isinstance(v, ast.Constant) and v.value == 0]
+        if starts:
+            st = starts[0]
+            sigs = set()
+            for c in sub_calls:
+                if len(c.args) == 3:
+                    try:
+                        a1 = Alg().ev(c.args[1])
+                        a2 = Alg().ev(c.args[2])
+                        sigs.add((str(a1), str(a2), _enclosing_kind(c, seg)))
+                    except Uninterpreted:
+                        sigs.add(("?", "?", "?"))
+            want = {(st, str(atom(cur) - const(1)), "Move"), (st, cur, "Close"), (st, str(Alg().ev(ast.parse("len(self) - 1", mode="eval").body)), None)}
+            nxt = set()
+            for tg, v, n in bindings(asub):
+                if isinstance(tg, ast.Name) and tg.id == st and not (isinstance(v, ast.Constant)):
+                    try:
+                        nxt.add((str(Alg().ev(v)), _enclosing_kind(n, seg)))
+                    except Uninterpreted:
+                        nxt.add(("?", None))
+            ok = sigs == want and nxt == {(cur, "Move"), (str(atom(cur) + const(1)), "Close")}
     ctx.ob("R16.2", "Path.as_subpaths[boundaries]", ok, "", asub.lineno, "a subpath ends before the next Move or with its Close; the tail forms the last subpath")
     sr = ctx.fn("Subpath.reverse", "R16.2")
-    s = ast.unparse(sr)
-    ok = "if isinstance(self[-1], Close):\n        end -= 1" in s and "if isinstance(self[0], Move):\n        start += 1" in s and "self._reverse_segments(start, end)" in s
-    ctx.ob("R16.2", "Subpath.reverse[Move and Close stay in place]", ok, "", sr.lineno, "a leading Move stays first and a trailing Close stays last; only the drawn segments between them are reversed")
-    ok = "self[0].end = Point(self[1].start)" in s
-    ctx.ob("R16.2", "Subpath.reverse[Move re-linked]", ok, "", sr.lineno, "the Move must now lead to the start of the new first drawn segment")
-    ok = "last.reverse()" in s and "last.start = Point(self[-2].end)" in s and "last.end = Point(self[0].end)" in s
-    ctx.ob("R16.2", "Subpath.reverse[Close re-linked]", ok, "", sr.lineno, "a closed subpath stays closed: the Close runs from the new last end to the subpath start")
+    reverse_body(ctx, sr)
     rs = ctx.fn("Subpath._reverse_segments", "R16.2")
-    s = ast.unparse(rs)
-    ok = "start_segment.reverse()" in s and "end_segment.reverse()" in s and "segments[s] = end_segment" in s and "segments[e] = start_segment" in s and "s += 1" in s and "e -= 1" in s \
-        and "while s <= e" in s and "if start_segment is not end_segment" in s
-    ctx.ob("R16.2", "Subpath._reverse_segments[swap and reverse each]", ok, "", rs.lineno, "segments are exchanged end for end and each is reversed exactly once (the middle one too)")
+    swap_loop(ctx, rs)
+
+
+def _enclosing_kind(node, seg):
+    """segment class tested by the innermost enclosing `if isinstance(<seg>, K)`"""
+    p = getattr(node, "_parent", None)
+    while p is not None and not isinstance(p, ast.FunctionDef):
+        if isinstance(p, ast.If) and isinstance(p.test, ast.Call) and call_name(p.test) == "isinstance" and len(p.test.args) == 2 and isinstance(p.test.args[0], ast.Name) \
+                and p.test.args[0].id == seg and isinstance(p.test.args[1], ast.Name):
+            return p.test.args[1].id
+        p = getattr(p, "_parent", None)
+    return None
+
+
+def _is_kind_test(t, index, kind, al):
+    """isinstance(self[index], Kind) (through an alias local as well)"""
+    if isinstance(t, ast.Call) and call_name(t) == "isinstance" and len(t.args) == 2 and isinstance(t.args[1], ast.Name) and t.args[1].id == kind:
+        return al.canon(t.args[0]) == "self[%s]" % index
+    return False
+
+
+def reverse_body(ctx, sr):
+    al = Aliases(sr)
+    # window offsets handed to _reverse_segments: start skips a leading Move, end skips a trailing Close
+    calls = [c for c in ast.walk(sr) if isinstance(c, ast.Call) and attr_chain(c.func) == ["self", "_reverse_segments"] and len(c.args) == 2]
+    ok = False
+    if len(calls) == 1 and all(isinstance(a, ast.Name) for a in calls[0].args):
+        sv, ev = calls[0].args[0].id, calls[0].args[1].id
+        size = [tg.id for tg, v, n in bindings(sr) if isinstance(tg, ast.Name) and isinstance(v, ast.Call) and call_name(v) == "len" and v.args and isinstance(v.args[0], ast.Name) and v.args[0].id == "self"]
+        s_init = [v for tg, v, n in bindings(sr) if isinstance(tg, ast.Name) and tg.id == sv and isinstance(n, ast.Assign)]
+        e_init = [v for tg, v, n in bindings(sr) if isinstance(tg, ast.Name) and tg.id == ev and isinstance(n, ast.Assign)]
+        okinit = len(s_init) == 1 and isinstance(s_init[0], ast.Constant) and s_init[0].value == 0 and len(e_init) == 1
+        if okinit:
+            try:
+                e0 = Alg().ev(e_init[0])
+                okinit = any(e0 == atom(z) - const(1) for z in size) or e0 == Alg().ev(ast.parse("len(self) - 1", mode="eval").body)
+            except Uninterpreted:
+                okinit = False
+        adj = {}
+        for x in ast.walk(sr):
+            if isinstance(x, ast.If) and len(x.body) == 1 and isinstance(x.body[0], ast.AugAssign) and isinstance(x.body[0].target, ast.Name) and isinstance(x.body[0].value, ast.Constant) \
+                    and x.body[0].value.value == 1 and x.lineno < calls[0].lineno:
+                st = x.body[0]
+                if st.target.id == sv and isinstance(st.op, ast.Add) and _is_kind_test(x.test, "0", "Move", al):
+                    adj["start"] = True
+                if st.target.id == ev and isinstance(st.op, ast.Sub) and _is_kind_test(x.test, "-1", "Close", al):
+                    adj["end"] = True
+        ok = okinit and adj == {"start": True, "end": True}
+    ctx.ob("R16.2", "Subpath.reverse[Move and Close stay in place]", ok, "", sr.lineno, "a leading Move stays first and a trailing Close stays last; only the drawn segments between them are reversed")
+    after = calls[0].lineno if calls else 0
+    stores = []
+    for x in ast.walk(sr):
+        if isinstance(x, ast.Assign) and x.lineno > after:
+            for tg, v in split_tuple_assign(x):
+                if isinstance(tg, ast.Attribute):
+                    stores.append((al.canon(tg), al.canon(v), x))
+    move_ok = any(t == "self[0].end" and v in ("Point(self[1].start)", "copy(self[1].start)") for t, v, x in stores)
+    ctx.ob("R16.2", "Subpath.reverse[Move re-linked]", move_ok, "; ".join("%s=%s" % (t, v) for t, v, _ in stores)[:200], sr.lineno, "the Move must now lead to the start of the new first drawn segment")
+    rev_last = any(isinstance(c, ast.Call) and isinstance(c.func, ast.Attribute) and c.func.attr == "reverse" and al.canon(c.func.value) == "self[-1]" and c.lineno > after for c in ast.walk(sr))
+    c_ok = rev_last and any(t == "self[-1].start" and v in ("Point(self[-2].end)", "copy(self[-2].end)") for t, v, x in stores) \
+        and any(t == "self[-1].end" and v in ("Point(self[0].end)", "copy(self[0].end)") for t, v, x in stores)
+    ctx.ob("R16.2", "Subpath.reverse[Close re-linked]", c_ok, "", sr.lineno, "a closed subpath stays closed: the Close runs from the new last end to the subpath start")
+
+
+def swap_loop(ctx, rs):
+    al = Aliases(rs)
+    P = [a.arg for a in rs.args.args]
+    idx = {}
+    for tg, v, n in bindings(rs):
+        if isinstance(tg, ast.Name) and isinstance(v, ast.Call) and attr_chain(v.func) == ["self", "index_to_path_index"] and len(v.args) == 1 and isinstance(v.args[0], ast.Name) and v.args[0].id in P[1:3]:
+            idx.setdefault(v.args[0].id, []).append(tg.id)
+    loops = [x for x in rs.body if isinstance(x, ast.While)]
+    ok = False
+    detail = ""
+    if len(loops) == 1 and isinstance(loops[0].test, ast.Compare) and len(loops[0].test.ops) == 1 and isinstance(loops[0].test.left, ast.Name) and isinstance(loops[0].test.comparators[0], ast.Name):
+        t = loops[0].test
+        lo, hi = (t.left.id, t.comparators[0].id) if isinstance(t.ops[0], (ast.LtE, ast.Lt)) else (t.comparators[0].id, t.left.id)
+        inclusive = isinstance(t.ops[0], (ast.LtE, ast.GtE))
+        roles = lo in idx.get(P[1], []) and hi in idx.get(P[2], [])
+        body = loops[0].body
+        LST = "self._path._segments"
+        front = back = None
+        for x in body:
+            for tg, v in split_tuple_assign(x):
+                if isinstance(tg, ast.Name) and al.canon(v) == "%s[%s]" % (LST, lo):
+                    front = tg.id
+                if isinstance(tg, ast.Name) and al.canon(v) == "%s[%s]" % (LST, hi):
+                    back = tg.id
+
+        def rev_call(x, who):
+            return isinstance(x, ast.Expr) and isinstance(x.value, ast.Call) and attr_chain(x.value.func) == [who, "reverse"]
+
+        uncond = any(rev_call(x, front) for x in body)
+        guarded = [x for x in body if isinstance(x, ast.If) and isinstance(x.test, ast.Compare) and len(x.test.ops) == 1 and isinstance(x.test.ops[0], ast.IsNot)
+                   and {getattr(x.test.left, "id", None), getattr(x.test.comparators[0], "id", None)} == {front, back}]
+        swap = False
+        if len(guarded) == 1:
+            g = guarded[0]
+            pairs = [(al.canon(tg), getattr(v, "id", None)) for x in g.body for tg, v in split_tuple_assign(x)]
+            swap = any(rev_call(x, back) for x in g.body) and ("%s[%s]" % (LST, lo), back) in pairs and ("%s[%s]" % (LST, hi), front) in pairs
+        steps = {(x.target.id, type(x.op).__name__) for x in body if isinstance(x, ast.AugAssign) and isinstance(x.target, ast.Name) and isinstance(x.value, ast.Constant) and x.value.value == 1}
+        ok = roles and inclusive and front is not None and back is not None and uncond and swap and steps == {(lo, "Add"), (hi, "Sub")}
+        detail = "bounds %s..%s front=%s back=%s unconditional reverse=%s guarded swap=%s steps=%s" % (lo, hi, front, back, uncond, swap, sorted(steps))
+    ctx.ob("R16.2", "Subpath._reverse_segments[swap and reverse each]", ok, detail, rs.lineno, "segments are exchanged end for end and each is reversed exactly once (the middle one too)")
 
 
 def window(ctx):
-    """Calls self._path._validate_connection(i, ...) from Subpath touch path segments i and i+1.  With the argument
+    """Calls <path>._validate_connection(i, ...) from Subpath touch path segments i and i+1.  With the argument
     written as <path index of window offset k> + c, confinement needs _start <= _start + k + c and _start + k + c + 1 <= _end."""
     rs = ctx.fn("Subpath._reverse_segments", "R16.3")
     sr = ctx.fn("Subpath.reverse", "R16.3")
-    # interval of the `start` / `end` offsets passed by Subpath.reverse
-    lo = {"start": None, "end": None}
-    vals = {"start": set(), "end": set()}
-    for nm in ("start", "end"):
-        base = None
-        for s in sr.body:
-            if isinstance(s, ast.Assign) and ast.unparse(s.targets[0]) == nm:
-                base = ast.unparse(s.value).replace(" ", "")
-        deltas = []
-        for s in ast.walk(sr):
-            if isinstance(s, ast.AugAssign) and ast.unparse(s.target) == nm and isinstance(s.value, ast.Constant):
-                deltas.append(s.value.value if isinstance(s.op, ast.Add) else -s.value.value)
-        ctx.need(base is not None, "R16.3", "Subpath.reverse: offset %s not found" % nm)
-        vals[nm] = (base, deltas)
-    start_base, start_deltas = vals["start"]
-    ctx.need(start_base == "0", "R16.3", "Subpath.reverse: start offset base is %s" % start_base)
-    start_min = 0 + sum(d for d in start_deltas if d < 0)  # guarded increments may or may not happen
-    calls = [c for c in ast.walk(rs) if isinstance(c, ast.Call) and ast.unparse(c.func) == "self._path._validate_connection"]
+    al = Aliases(rs)
+    P = [a.arg for a in rs.args.args]
+    # the offsets Subpath.reverse passes: start is 0, raised by one under a guard (a leading Move)
+    calls_sr = [c for c in ast.walk(sr) if isinstance(c, ast.Call) and attr_chain(c.func) == ["self", "_reverse_segments"] and len(c.args) == 2]
+    ctx.need(len(calls_sr) == 1 and isinstance(calls_sr[0].args[0], ast.Name), "R16.3", "Subpath.reverse: call of _reverse_segments not found")
+    sv = calls_sr[0].args[0].id
+    inits = [v for tg, v, n in bindings(sr) if isinstance(tg, ast.Name) and tg.id == sv and isinstance(n, ast.Assign)]
+    ctx.need(len(inits) == 1 and isinstance(inits[0], ast.Constant) and inits[0].value == 0, "R16.3", "Subpath.reverse: start offset base is not 0")
+    deltas = []
+    for x in ast.walk(sr):
+        if isinstance(x, ast.AugAssign) and isinstance(x.target, ast.Name) and x.target.id == sv and isinstance(x.value, ast.Constant):
+            deltas.append(x.value.value if isinstance(x.op, ast.Add) else -x.value.value)
+    start_min = 0 + sum(d for d in deltas if d < 0)  # guarded increments may or may not happen
+    calls = [c for c in ast.walk(rs) if isinstance(c, ast.Call) and isinstance(c.func, ast.Attribute) and c.func.attr == "_validate_connection" and al.canon(c.func.value) == "self._path"]
     ctx.need(len(calls) >= 1, "R16.3", "_reverse_segments: validator calls not found")
-    # which local holds the path index of `start`
-    pidx = {}
-    for s in rs.body:
-        if isinstance(s, ast.Assign) and isinstance(s.value, ast.Call) and ast.unparse(s.value.func) == "self.index_to_path_index" and isinstance(s.value.args[0], ast.Name):
-            pidx[s.targets[0].id] = s.value.args[0].id
+    # which local holds the path index of `start` / `end` at the time of the validator calls (the last definition before the call)
+    def role_of(name, line):
+        best = None
+        for tg, v, n in bindings(rs):
+            if isinstance(tg, ast.Name) and tg.id == name and n.lineno < line:
+                if best is None or n.lineno > best[1]:
+                    best = (v, n.lineno)
+        if best is None:
+            return name if name in P else None
+        v = best[0]
+        if isinstance(v, ast.Call) and attr_chain(v.func) == ["self", "index_to_path_index"] and len(v.args) == 1 and isinstance(v.args[0], ast.Name):
+            return v.args[0].id
+        return None
+
     for c in calls:
         a = c.args[0]
         off = 0
@@ -152,22 +340,24 @@ def window(ctx):
             name = a.id
         else:
             raise AnalysisError("R16.3", "_reverse_segments: index expression %s not interpreted" % ast.unparse(a))
-        which = pidx.get(name, name)
-        if which == "start":
+        which = role_of(name, c.lineno)
+        ctx.need(which in P[1:3], "R16.3", "_reverse_segments: index local %s not traced to a window offset" % name)
+        label = "%s%s" % ("start" if which == P[1] else "end", (" %s %d" % ("+" if off > 0 else "-", abs(off))) if off else "")
+        if which == P[1]:
             lowest = start_min + off  # relative to _start
             ok = lowest >= 0
             guarded = False
             p = getattr(c, "_parent", None)
             while p is not None and p is not rs:
-                if isinstance(p, ast.If) and ("self._start" in ast.unparse(p.test) or "start >" in ast.unparse(p.test) or "Move" in ast.unparse(p.test)):
+                if isinstance(p, ast.If) and any(attr_chain(n) == ["self", "_start"] or (isinstance(n, ast.Name) and n.id in ("Move", P[1])) for n in ast.walk(p.test)):
                     guarded = True
                 p = getattr(p, "_parent", None)
-            ctx.ob("R16.3", "Subpath._reverse_segments[validate_connection(%s)]" % ast.unparse(a), ok or guarded,
+            ctx.ob("R16.3", "Subpath._reverse_segments[validate_connection(%s)]" % label, ok or guarded,
                    "lowest path index addressed = _start %+d (start offset can be %d when the subpath has no leading Move)" % (lowest, start_min), c.lineno,
                    "the connection before the first reversed segment lies outside the window when the subpath starts without its own Move: "
                    "with prefer_second the previous subpath's last segment (its Close) is rewritten")
         else:
             # connection (end, end+1): end+1 is at most the trailing Close (inside) or the next subpath's Move, whose start is not geometry
-            ctx.ob("R16.3", "Subpath._reverse_segments[validate_connection(%s)]" % ast.unparse(a), off == 0 and not any(k.arg == "prefer_second" for k in c.keywords),
+            ctx.ob("R16.3", "Subpath._reverse_segments[validate_connection(%s)]" % label, off == 0 and not any(k.arg == "prefer_second" for k in c.keywords),
                    "links the segment after the window to the new last end (first-authority)", c.lineno,
                    "the connection after the last reversed segment must give authority to the reversed segment (only the follower's start is adjusted)")
